@@ -322,22 +322,11 @@ def dom_jigg(snaps):
 
 
 # ---------------------------------------------------------------------------------------------------------------------
-def run(ctx):
-    rng = ctx.rng
-    logging.getLogger('depccg.lang').setLevel(logging.WARNING)
-    ctx.build(['P_C15.vo'])
-    ctx.theorems('P_C15')
+def pipeline(ctx, add):
+    """the implementation-side pipeline and the oracle; `add` records a correspondence case (may be a no-op)"""
     build_ccg_tree, normalize_tokens, normalize_token, how = load_ccg2lambda()
     ctx.stats['ccg2lambda_loaded_by'] = how
-
-    cases, descr = [], []
-    dom_cases, dom_descr = [], []
     lxml_ok = [0, 0]
-
-    def add(mk, d):
-        E = Enc()
-        cases.append(E.wrap(mk(E)))
-        descr.append(d)
 
     # --- record what guess_combinator_by_triplet answered to the readers (the model takes it as a parameter) -------------
     calls = []
@@ -549,23 +538,12 @@ def run(ctx):
             used += n
         return used
 
-    # ------------------------------------------------------------------------------------------------------------------
-    # 1. derivations -> both encoders -> readers / ccg2lambda
-    ndocs = 130 if ctx.quick else 1500
-    for d in range(ndocs):
-        lang = 'en' if d % 2 == 0 else 'ja'
+    def process(doc, lang, use_symbol, jigg_first, where):
+        """one document through both encoders, the readers, build_ccg_tree and normalize_tokens"""
         set_global_language_to(lang)
-        doc = make_doc(rng, lang, ctx.quick)
         snaps = [[snapshot(st.tree) for st in nb] for nb in doc]
         scores = [[st.score for st in nb] for nb in doc]
-        use_symbol = rng.random() < 0.5 if lang == 'en' else rng.random() < 0.8
-        jigg_first = rng.random() < 0.5
         data = {'lang': lang, 'use_symbol': use_symbol, 'jigg_first': jigg_first, 'doc': snaps, 'scores': scores}
-        where = f'doc {d} ({lang})'
-        ctx.case(('doc', repr(snaps)), nontrivial=any(len(nb) > 1 or s[0] != 'L' for nb in snaps for s in nb))
-        ctx.count(f'docs:{lang}')
-        ctx.count(f'nbest:{max(len(nb) for nb in doc)}')
-        ctx.count('trees', sum(len(nb) for nb in doc))
 
         def gdoc(E):
             return '[' + ';'.join('[' + ';'.join(E.snap(s) for s in nb) + ']' for nb in snaps) + ']'
@@ -672,7 +650,55 @@ def run(ctx):
 
         for step in ((do_jigg, do_xml) if jigg_first else (do_xml, do_jigg)):
             step()
+        # the encoders are observations: the derivation still says what it said
+        now = [[snapshot(st.tree) for st in nb] for nb in doc]
+        if now != snaps:
+            ctx.fail('encoder_changed_the_derivation', f'{where}: tokens/trees differ after encoding (jigg_first={jigg_first})', data)
+        return snaps, scores, gdoc, gdoc_sc
+
+    def restore():
+        reader_mod.guess_combinator_by_triplet = orig_guess
+        set_global_language_to('en')
+
+    return process, run_reader, restore, lxml_ok, (build_ccg_tree, normalize_tokens, normalize_token)
+
+
+def run(ctx):
+    rng = ctx.rng
+    logging.getLogger('depccg.lang').setLevel(logging.WARNING)
+    ctx.build(['P_C15.vo'])
+    ctx.theorems('P_C15')
+
+    cases, descr = [], []
+    dom_cases, dom_descr = [], []
+
+    def add(mk, d):
+        E = Enc()
+        cases.append(E.wrap(mk(E)))
+        descr.append(d)
+
+    process, run_reader, restore, lxml_ok, (build_ccg_tree, normalize_tokens, normalize_token) = pipeline(ctx, add)
+
+    # ------------------------------------------------------------------------------------------------------------------
+    # 1. derivations -> both encoders -> readers / ccg2lambda
+    ndocs = 80 if ctx.quick else 1200
+    for d in range(ndocs):
+        lang = 'en' if d % 2 == 0 else 'ja'
+        set_global_language_to(lang)
+        doc = make_doc(rng, lang, ctx.quick)
+        use_symbol = rng.random() < 0.5 if lang == 'en' else rng.random() < 0.8
+        jigg_first = rng.random() < 0.5
+        where = f'doc {d} ({lang})'
+        snaps, scores, gdoc, gdoc_sc = process(doc, lang, use_symbol, jigg_first, where)
+        ctx.case(('doc', repr(snaps)), nontrivial=any(len(nb) > 1 or s[0] != 'L' for nb in snaps for s in nb))
+        ctx.count(f'docs:{lang}')
+        ctx.count(f'nbest:{max(len(nb) for nb in doc)}')
+        ctx.count('trees', sum(len(nb) for nb in doc))
+        if d < 2:
+            ctx.sample({'doc': where, 'trees': [[s[1] for s in nb] for nb in snaps]})
         # the generated documents lie in the domain of the theorems (boolean versions of the hypotheses, evaluated in coqc)
+        if ctx.quick and d >= 40:
+            continue
         E = Enc()
         dx, dj, dt = dom_xml(snaps), dom_jigg(snaps), dom_jigg_tok(snaps)
         if lang == 'en' and not dx:
@@ -684,12 +710,6 @@ def run(ctx):
         dom_cases.append(E.wrap(f'DomXml {gdoc(E)} {gbool(dx)} && DomJigg {gdoc_sc(E)} {gbool(dj)} && DomJiggTok {gdoc_sc(E)} {gbool(dt)}'))
         dom_descr.append((where, dx, dj, dt))
         ctx.count(f'domain:xml:{dx}:jigg:{dj}:tok:{dt}')
-        # the encoders are observations: the derivation still says what it said
-        now = [[snapshot(st.tree) for st in nb] for nb in doc]
-        if now != snaps:
-            ctx.fail('encoder_changed_the_derivation', f'{where}: tokens/trees differ after encoding (jigg_first={jigg_first})', data)
-        if d < 2:
-            ctx.sample({'doc': where, 'trees': [[s[1] for s in nb] for nb in snaps]})
 
     # ------------------------------------------------------------------------------------------------------------------
     # 2. malformed documents: model and implementation must agree on error / result
@@ -732,7 +752,7 @@ def run(ctx):
         return f
 
     BADCATS = ['', '(S', 'S/NP/NP', 'S[', 'NP)', 'S[a=b,c=d]']
-    nmal = 60 if ctx.quick else 700
+    nmal = 50 if ctx.quick else 700
     made = 0
     for d in range(nmal * 3):
         if made >= nmal:
@@ -842,8 +862,7 @@ def run(ctx):
         add(lambda E: f'ChkCmv {E.cat(c)} {lit(s)}', ('cmv', str(c), s))
         ctx.case(('cmv', str(c)), nontrivial=not c.is_atomic)
 
-    reader_mod.guess_combinator_by_triplet = orig_guess
-    set_global_language_to('en')
+    restore()
 
     bad = ctx.coq_cases('xml', PRE + COMMON_DEFS, cases, chunk=40 if ctx.quick else 80, describe=lambda i: repr(descr[i])[:600])
     for i in (bad or [])[:10]:
@@ -866,3 +885,77 @@ def run(ctx):
                      'rule labels through read_jigg_xml are not claimed (the reader relabels by guess)',
                      'normalize_tokens leaves a surf/base that already starts with "_" untouched (e.g. "_." stays "_."); the cleanliness claim is checked on the other tokens'
                      + ('' if not STRICT_UNDERSCORE else ' - STRICT mode on')])
+
+
+# ---------------------------------------------------------------------------------------------------------------------
+class _ReplayCtx:
+    """just enough of common.Ctx for the pipeline: collects failures, touches no evidence file"""
+
+    def __init__(self):
+        self.failures, self.stats, self.notes = [], {}, []
+        self.work = os.path.join(env.WORK, 'C15', 'replay_tmp')
+        os.makedirs(self.work, exist_ok=True)
+
+    def fail(self, kind, desc, data):
+        self.failures.append((kind, desc))
+
+    def count(self, key, n=1):
+        self.stats[key] = self.stats.get(key, 0) + n
+
+    def obligation(self, name, ok, detail=''):
+        if not ok:
+            self.failures.append(('obligation', f'{name}: {detail}'))
+
+    def case(self, *a, **k): pass
+    def sample(self, *a, **k): pass
+
+
+def doc_of_snapshot(snaps, scores):
+    """rebuild an n-best document (shared token objects per sentence) from the plain data of a replay file"""
+    doc = []
+    for nb, scs in zip(snaps, scores):
+        toks = [Token(**dict(kv)) for kv in (l[2] for l in snap_leaves(nb[0]))]
+
+        def build(s, pos):
+            c = Category.parse(s[1])
+            if s[0] == 'L':
+                same = [list(x) for x in toks[pos[0]].items()] == [list(x) for x in s[2]]
+                tok = toks[pos[0]] if same else Token(**dict(s[2]))
+                pos[0] += 1
+                return Tree.make_terminal(tok, c, s[3], s[4])
+            if s[0] == 'U':
+                return Tree.make_unary(c, build(s[4], pos), s[2], s[3])
+            l = build(s[5], pos)
+            return Tree.make_binary(c, l, build(s[6], pos), s[2], s[3], s[4])
+        doc.append([ScoredTree(build(s, [0]), sc) for s, sc in zip(nb, scs)])
+    return doc
+
+
+def replay(data):
+    """./check C15 --replay work/C15/replay.json : re-run every recorded failing input against the implementation"""
+    logging.getLogger('depccg.lang').setLevel(logging.WARNING)
+    rc = 0
+    for f in data.get('failures', []):
+        d = f.get('data') or {}
+        ctx = _ReplayCtx()
+        if 'doc' in d:
+            process, _, restore, _, _ = pipeline(ctx, lambda mk, dd: None)
+            try:
+                process(doc_of_snapshot(d['doc'], d['scores']), d['lang'], d['use_symbol'], d['jigg_first'], 'replay')
+            finally:
+                restore()
+        elif 'word' in d:
+            _, _, normalize_token, _ = load_ccg2lambda()
+            v = normalize_token(d['word'])
+            if not v.startswith('_') or any(ch in STRIPPED for ch in v):
+                ctx.fail('normalize_token_not_clean', f'normalize_token({d["word"]!r}) = {v!r}', d)
+        kinds = sorted({k for k, _ in ctx.failures})
+        print(f"replay {f['kind']}: {'REPRODUCED' if f['kind'] in kinds else ('other failure: ' + str(kinds) if kinds else 'not reproduced')}")
+        for k, desc in ctx.failures[:3]:
+            print(f'  [{k}] {desc[:300]}')
+        rc |= 1 if ctx.failures else 0
+    if not data.get('failures'):
+        print('no concrete failing input in this replay file; broken obligations:')
+        for b in data.get('broken_obligations', [])[:10]:
+            print(' ', (b.get('name') if isinstance(b, dict) else b))
+    return rc
